@@ -170,10 +170,12 @@ func (v *Vue) evaluateNodeAsElement(ctx VueContext, node *html.Node, depth int) 
 		return result, nil
 	}
 
-	// A conditional include - <template v-if="..." include="...">, or a component
-	// shorthand tag carrying v-if, which is rewritten into one: the chosen branch
-	// is included exactly like an include tag outside a chain.
-	if node.Data == "template" && helpers.HasAttr(node, "include") {
+	// A <template> chosen by a chain is evaluated exactly like a <template>
+	// outside a chain (see evaluate): an include is included (this is also what a
+	// component shorthand tag carrying v-if has been rewritten into), v-html is
+	// honoured, attributes set variables of the current scope, the children are
+	// rendered in place of the tag.
+	if node.Data == "template" {
 		tplNode := helpers.ShallowCloneWithAttrs(node)
 		tplNode.FirstChild, tplNode.LastChild = node.FirstChild, node.LastChild
 		for _, directive := range []string{"v-if", "v-else-if", "v-else"} {
@@ -182,47 +184,9 @@ func (v *Vue) evaluateNodeAsElement(ctx VueContext, node *html.Node, depth int) 
 		return v.evalTemplate(ctx, []*html.Node{tplNode}, ctx.stack.EnvMap(), depth+1)
 	}
 
-	// Special handling for template tags: evaluate bound attributes and set them in current scope
-	if node.Data == "template" {
-		// For templates, bound attributes modify the current scope (don't create new scope)
-		for _, attr := range node.Attr {
-			// Check for bound attributes (: or v-bind:)
-			boundName := attr.Key
-			if strings.HasPrefix(boundName, ":") {
-				boundName = boundName[1:]
-			} else if strings.HasPrefix(boundName, "v-bind:") {
-				boundName = boundName[7:]
-			} else {
-				// Not a bound attribute, skip it
-				continue
-			}
-
-			// Evaluate the bound attribute expression
-			// Use expression evaluator for templates to support literals and expressions
-			expr := strings.TrimSpace(attr.Val)
-			val, err := v.exprEval.Eval(expr, ctx.stack.EnvMap())
-			if err == nil {
-				// Expression evaluated successfully
-				ctx.stack.Set(boundName, val)
-				continue
-			}
-
-			// Fall back to variable resolution if expression evaluation fails
-			valResolved, ok := ctx.stack.Resolve(expr)
-			if ok {
-				ctx.stack.Set(boundName, valResolved)
-			} else {
-				// Variable not found - set to nil
-				ctx.stack.Set(boundName, nil)
-			}
-		}
-
-		// Evaluate children and return them (omitting the template tag)
-		evaluated, err := v.evaluateChildren(ctx, node, depth+1)
-		if err != nil {
-			return nil, err
-		}
-		return evaluated, nil
+	// A conditional <slot> is filled like any other slot.
+	if node.Data == "slot" {
+		return v.evalSlot(ctx, node, ctx.SlotScope)
 	}
 
 	// Regular element node processing (no v-for)
